@@ -353,12 +353,12 @@ def rule_local(ctx):
     return rr
 
 
-def rule_carry(ctx):
+def rule_carry(ctx, prop='C14', rule='C14.carry'):
     """Locality inside the completion work-list: the decision to replace a node
     by an error placeholder is taken from what happened to *that* node in this
     iteration (an exception just caught, a lookup that just came back empty),
     never from state the loop carries over from other nodes."""
-    rr = RuleResult('C14', 'C14.carry', 'DEP',
+    rr = RuleResult(prop, rule, 'DEP',
                     'an error placeholder is never decided by state carried '
                     'over from other nodes', floor=1)
     p = ctx.project
